@@ -119,6 +119,12 @@ pub fn handle(op: &str, a: &[&str]) -> Option<String> {
         ("i.from_signed_bytes_be", [b]) => ok_i(&BigInt::from_signed_bytes_be(&parse_bytes(b)?)),
         ("i.from_le_bytes", [b]) => ok_i(&<BigInt as FromBytes>::from_le_bytes(&parse_bytes(b)?[..])),
         ("i.from_be_bytes", [b]) => ok_i(&<BigInt as FromBytes>::from_be_bytes(&parse_bytes(b)?[..])),
+        // api-coverage: the PROVIDED `ToBytes::to_ne_bytes` / `FromBytes::from_ne_bytes` (num-traits: the little-endian
+        // form on this target); not overridden by the crate — an override added by a change would be reached here
+        ("u.to_ne_bytes", [x]) => format!("ok {}", show_bytes(&ToBytes::to_ne_bytes(&parse_u(x)?))),
+        ("i.to_ne_bytes", [x]) => format!("ok {}", show_bytes(&ToBytes::to_ne_bytes(&parse_i(x)?))),
+        ("u.from_ne_bytes", [b]) => ok_u(&<BigUint as FromBytes>::from_ne_bytes(&parse_bytes(b)?[..])),
+        ("i.from_ne_bytes", [b]) => ok_i(&<BigInt as FromBytes>::from_ne_bytes(&parse_bytes(b)?[..])),
         ("i.to_bytes_le", [x]) => {
             let (s, b) = parse_i(x)?.to_bytes_le();
             format!("ok {} {}", show_sign(s), show_bytes(&b))
